@@ -10,12 +10,12 @@ from ..strat import uni, logu, pos
 
 META = dict(
     technique='Hypothesis-generated EOS constants and states; round-trip of the closures, analytic partials vs centred finite differences (two step sizes), '
-              'Jacobian vs finite differences of the residual, inverse Jacobian times Jacobian, jump conditions of the converged Newton state',
+              'Jacobian vs finite differences of the residual, inverse Jacobian times Jacobian, jump conditions of the converged Newton state; coverage-guided supplement: the same strategy and oracle driven by atheris/libFuzzer through Hypothesis fuzz_one_input (obligations *-atheris)',
     rule='cases = (EOS class, admissible constants, state in the domain of validity incl. expansion and compression for Steinberg) and (residual class, '
          'initial conditions with P0>0 when symmetry=0, EOS, evaluation state); oracle = P(rho,e(rho,P))=P, each partial = FD of the closure, F_prime = FD of F '
          'column by column (buffers copied), F_prime_inv F_prime = I, converged solve_jump_conditions() satisfies the three Noh jump conditions with D>0; '
          'non-trivial = non-ideal EOS or P0>0; distinct = case hash',
-    assumptions=['finite differences with relative steps 1e-5 and 5e-6; a violation needs both to disagree with the analytic value by > 1e-6 relative',
+    assumptions=['Newton obligation: a physically reasonable starting guess = the ideal-gas Noh state perturbed by up to 15 %, for EOS parameters for which that state is close to the physical root (co-volume b rho_ideal <= 0.25, stiffness c_s <= 0.3 |u0|)', 'finite differences with relative steps 1e-5 and 5e-6; a violation needs both to disagree with the analytic value by > 1e-6 relative',
                  'partials are called with the argument order the residual classes use: (rho, P) for e-derivatives, (rho, e) for P-derivatives'])
 
 RES = 'exactpack.solvers.nohblackboxeos.solution_tools.residual_functions.'
